@@ -124,6 +124,9 @@ func (ck *checker) cfgTag() string { return "src=" + ck.src.cfg + ";tgt=" + ck.t
 // kindTag names the kind of source object j (part of fingerprints: where a
 // wrong value sits is part of the class of a defect).
 func (ck *checker) kindTag(j int) string {
+	if j >= len(ck.g) {
+		return "direct-value"
+	}
 	switch ck.g[j].K {
 	case 'i':
 		return "integer-object"
@@ -190,6 +193,8 @@ func (ck *checker) item(it Item, j, p int, tv pdf.Object, where string) {
 		if !ck.isNullInTarget(tv, where) {
 			ck.f.add("null-entry-not-preserved", "%s: want null, target has %s", where, hx.Show(tv))
 		}
+	case 'N', 'M':
+		ck.typedNil(it.K, tv, where)
 	case 'a':
 		a, ok := tv.(pdf.Array)
 		switch {
@@ -232,6 +237,25 @@ func (ck *checker) item(it Item, j, p int, tv pdf.Object, where string) {
 	default:
 		ck.refItem(it, tv, where)
 	}
+}
+
+// typedNil judges what became of a nil pdf.Array ('N') or nil pdf.Dict ('M')
+// handed to Copy by the caller. Such a value is written as null; the
+// statement does not say whether the copy is a null or an empty container of
+// the same type, so both are accepted (and nothing else).
+func (ck *checker) typedNil(k byte, tv pdf.Object, where string) {
+	if ck.isNullInTarget(tv, where) {
+		return
+	}
+	if a, ok := tv.(pdf.Array); ok && k == 'N' && len(a) == 0 {
+		ck.unspecified++
+		return
+	}
+	if d, ok := tv.(pdf.Dict); ok && k == 'M' && countNonNull(d) == 0 {
+		ck.unspecified++
+		return
+	}
+	ck.f.add("typed-nil-value-differs", "%s: the caller handed in a nil %s, the target has %s", where, map[byte]string{'N': "pdf.Array", 'M': "pdf.Dict"}[k], hx.Show(tv))
 }
 
 func countNonNull(d pdf.Dict) int {
@@ -346,7 +370,7 @@ func (ck *checker) drain() {
 // entry holding it is equivalent to an absent entry).
 func (ck *checker) isDead(it Item) (dead, undef bool) {
 	switch it.K {
-	case 'n':
+	case 'n', 'N', 'M':
 		return true, false
 	case 'r', 'x', 'f', 'g':
 		if it.K == 'r' {
@@ -408,6 +432,12 @@ var stmIgnore = map[pdf.Name]bool{"Length": true, "Filter": true, "DecodeParms":
 // with tv.
 func (ck *checker) plainValue(o Obj, j int, tv pdf.Object, where string) {
 	switch o.K {
+	case 'n':
+		if !ck.isNullInTarget(tv, where) {
+			ck.f.add("null-entry-not-preserved", "%s: want null, target has %s", where, hx.Show(tv))
+		}
+	case 'N', 'M':
+		ck.typedNil(o.K, tv, where)
 	case 'i':
 		if tv != pdf.Object(objInt(j)) {
 			ck.f.add("value-differs:integer", "%s: want %d, target has %s", where, objInt(j), hx.Show(tv))
@@ -455,6 +485,12 @@ func (ck *checker) plainValue(o Obj, j int, tv pdf.Object, where string) {
 		if ck.tr == nil {
 			return
 		}
+		if !stmDecodable(o.V) {
+			// /Filter and /DecodeParms of the source do not fit together: there
+			// are no decoded bytes to compare
+			ck.unspecified++
+			return
+		}
 		tag := "stream=" + stmNames[o.V] + ";" + ck.cfgTag()
 		data, err := ck.tr.streamData(stm)
 		if err != nil {
@@ -497,14 +533,26 @@ func judge(s *source, prog []Op, tgtCfg string, ex *execution) (f fails, outcome
 			continue
 		}
 		var its []Item
+		reach := 0
 		if st.op.K == 'C' {
 			its = s.g[st.op.J].It
+			reach = 1 << st.op.J
 		} else if st.op.K == 'R' && st.op.J >= 0 {
 			its = []Item{{'r', st.op.J}}
+		} else if st.op.K == 'V' {
+			if o, err := parseObj(st.op.D); err == nil {
+				its = o.It
+			}
 		}
-		if s.g.hasRefLoop(s.g.reachFromItems(its)) {
+		reach |= s.g.reachFromItems(its)
+		if s.g.hasRefLoop(reach) {
 			// a reference loop is a malformed source: the statement is silent
 			return f, "error:reference-loop-in-source"
+		}
+		if s.g.hasUndecodableStream(reach) {
+			// a stream whose /Filter and /DecodeParms do not fit together is a
+			// malformed source as well
+			return f, "error:undecodable-stream-in-source"
 		}
 		f.add("copy-error:"+normaliseMsg(st.err.Error()), "step %d (%s) returned an error: %v", k, st.op, st.err)
 		return f, "error"
@@ -550,6 +598,18 @@ func judge(s *source, prog []Op, tgtCfg string, ex *execution) (f fails, outcome
 				break
 			}
 			ck.plainValue(s.g[st.op.J], st.op.J, tv, where+" result")
+		case 'V':
+			o, err := parseObj(st.op.D)
+			if err != nil {
+				f.add("infra:case", "bad direct value %q", st.op.D)
+				break
+			}
+			tv, err := tr.Get(st.ref, true)
+			if err != nil {
+				f.add("target-object-unreadable:direct-value;"+ck.cfgTag(), "%s: the copied value does not read back: %v", where, err)
+				break
+			}
+			ck.plainValue(o, directJ, tv, where+" result")
 		}
 		ck.drain()
 		if len(f.list) > 0 {
